@@ -216,6 +216,7 @@ func expand(cfg *Config, s *hstate, tier string) ([]transition, error) {
 	}
 	do := func(l Label) (applyInfo, *br.World, error) {
 		w := s.w.Clone()
+		br.SeedNames(int64(1000 + len(s.hist))) // reservation-pod names: a function of the event's position only
 		info, err := Apply(w, cfg, l)
 		return info, w, err
 	}
@@ -364,7 +365,8 @@ func expandEntry(cfgs []Config, idx int, e frontierEntry, tier string) expResult
 		r.Err = err.Error()
 		return r
 	}
-	for _, l := range e.Hist {
+	for i, l := range e.Hist {
+		br.SeedNames(int64(1000 + i))
 		if _, err := Apply(w, cfg, l); err != nil {
 			r.Err = err.Error()
 			return r
@@ -401,6 +403,7 @@ func ReplayHistory(cfg *Config, hist []Label, verbose bool) ([]br.Finding, error
 	prev := findingSet(w.Snap())
 	var fresh []br.Finding
 	for i, l := range hist {
+		br.SeedNames(int64(1000 + i))
 		info, err := Apply(w, cfg, l)
 		if err != nil {
 			return nil, err
